@@ -13,8 +13,8 @@ import xml.etree.ElementTree as ET
 
 SRC = "/tmp/seed/out"
 ROOT = os.path.dirname(os.path.dirname(os.path.abspath(__file__)))
-WT = "/tmp/seedwt_eval"
-EXTRA = {"C05e": ["C03"], "C01e": ["C04"], "C19f": [], "C04b": ["C01"], "C09b": ["C04"], "C03b": ["C04"], "C10b": ["C03", "C04"], "C15b": ["C09"], "C09a": ["C15"], "C04a": ["C07"], "C07a": ["C04"]}
+WT = f"/tmp/seedwt_eval_{os.getpid()}"
+EXTRA = {"C03f": ["C04"], "C07f": ["C04"], "C18e": ["C19"], "C05e": ["C03"], "C01e": ["C04"], "C19f": [], "C04b": ["C01"], "C09b": ["C04"], "C03b": ["C04"], "C10b": ["C03", "C04"], "C15b": ["C09"], "C09a": ["C15"], "C04a": ["C07"], "C07a": ["C04"]}
 
 
 def sh(cmd, cwd=None, timeout=3000):
@@ -25,7 +25,7 @@ def sh(cmd, cwd=None, timeout=3000):
 def tests_ok(wt):
     base = json.load(open("/root/.vp/BASELINE.json"))
     stable = set(base["stable_pass"])
-    junit = "/tmp/seedwt_junit.xml"
+    junit = f"/tmp/seedwt_junit_{os.getpid()}.xml"
     sh(f"/venv/bin/python -m pytest -ra -q -p no:cacheprovider --timeout=900 --continue-on-collection-errors --junitxml={junit} -n 6", cwd=wt)
     passed = set()
     for tc in ET.parse(junit).iter("testcase"):
@@ -69,7 +69,7 @@ def main(only=None):
         r["checks"] = {}
         if r.get("applies"):
             # the checks run against a scratch worktree with the patch applied (PYTHONPATH/VX_REPO), never against /repo
-            CW = "/tmp/seedwt_chk"
+            CW = f"/tmp/seedwt_chk_{os.getpid()}"
             sh(f"git -C /repo worktree remove --force {CW}")
             shutil.rmtree(CW, ignore_errors=True)
             sh(f"git -C /repo worktree add --detach {CW} HEAD")
@@ -82,10 +82,14 @@ def main(only=None):
             finally:
                 sh(f"git -C /repo worktree remove --force {CW}")
                 shutil.rmtree(CW, ignore_errors=True)
-        out[sid] = r
         print(sid, json.dumps(r)[:600], flush=True)
         os.makedirs(os.path.join(ROOT, "seeded"), exist_ok=True)
-        json.dump(out, open(res_path, "w"), indent=1)
+        import fcntl
+        with open(res_path + ".lock", "w") as lk:  # several evaluators may run side by side
+            fcntl.flock(lk, fcntl.LOCK_EX)
+            out = json.load(open(res_path)) if os.path.exists(res_path) else {}
+            out[sid] = r
+            json.dump(out, open(res_path, "w"), indent=1)
         if r["confirmed"]:
             dst = os.path.join(ROOT, "seeded", sid)
             os.makedirs(dst, exist_ok=True)
